@@ -545,6 +545,9 @@ func (a *IPAllocator) SetAllocation(subscriberID string, prefix *net.IPNet) erro
 
 	// Clear any existing allocation for this subscriber
 	if oldIdx, exists := a.allocated[subscriberID]; exists {
+		if oldIdx == idx {
+			return nil // Same record applied again: already counted
+		}
 		if oldIdx != idx {
 			a.bitmap.SetBit(a.bitmap, int(oldIdx), 0)
 			delete(a.indexToSubscriber, oldIdx)
